@@ -217,6 +217,12 @@ pub fn c17(ctx: &Ctx) {
                 v.push(px[i]);
             }
             let _ = check(&v, &mut acc);
+            // long runs of pixels of one stratum (the strata rotate with the pixel index modulo 8)
+            {
+                let m = px.len().min(16384);
+                let v: Vec<[f32; 3]> = (0..8).flat_map(|k| (k..m).step_by(8)).map(|i| px[i]).collect();
+                let _ = check(&v, &mut acc);
+            }
             // letterboxed: whole rows of black above and between the rows of subjects, none below
             let wrow = [61usize, 64, 17][(ck / 3 % 3) as usize];
             let (v, _idx, h) = letterbox(&px[..px.len().min(6000)], wrow, [0.0; 3]);
